@@ -219,6 +219,37 @@ def run(ctx):
                 evs.append(inv)
                 if not inv["exc"]:
                     evs.append(d.dir_event(zone, e1, round(n1, 4), hemi, ell, inv, "straddles CM"))
+    # lines running within the grid convergence of grid north / south: there azimuth + convergence leaves 0..360 at one end
+    # (plane bearing = +-half the convergence, and the same turned by 180 degrees), on both sides of the central meridian
+    k = 0
+    for zone in (1, 31, 60):
+        cm = zone * 6 - 183
+        for lat in (-70.0, -25.0, 10.0, 60.0):
+            for east in (200000.0, 820000.0):
+                hemi = "south" if lat < 0 else "north"
+                for turn in (0.0, 180.0):
+                    for half in (0.5, -0.5):
+                        ell = d.fresh(ells[d.pick() % 6])
+                        E = ell[1]
+                        n1 = round(cv.geo2grid(lat + rnd.uniform(-0.4, 0.4), float(cm), zone, E)[3], 4)
+                        e1 = round(east + rnd.uniform(-500, 500), 4)
+                        la1, lo1, _psf, conv = [float(x) for x in cv.grid2geo(zone, e1, n1, hemi, E)[:4]]
+                        if not (-179.9 <= lo1 <= 179.9):
+                            continue               # zone 1 / 60 reach beyond the +-180 meridian at this easting: not a position
+                        brg = (turn + half * conv) % 360.0
+                        L = rnd.uniform(800.0, 20000.0)
+                        e2 = round(e1 + L * math.sin(math.radians(brg)), 4)
+                        n2 = round(n1 + L * math.cos(math.radians(brg)), 4)
+                        if not (0 <= n2 <= 10000000):
+                            continue
+                        la2, lo2 = [float(x) for x in cv.grid2geo(zone, e2, n2, hemi, E)[:2]]
+                        if not (-80 <= la2 <= 84 and -179.9 <= lo2 <= 179.9) or (la2 < 0) != (la1 < 0):
+                            continue
+                        tag = "within the convergence of grid %s zone%d lat%g" % ("north" if turn == 0 else "south", zone, lat)
+                        inv = d.inv_event(zone, e1, n1, zone, e2, n2, hemi, ell, tag)
+                        evs.append(inv)
+                        if not inv["exc"]:
+                            evs.append(d.dir_event(zone, e1, n1, hemi, ell, inv, tag))
     tris = [(3, 4, 5), (5, 12, 13), (12, 5, 13), (8, 15, 17), (7, 24, 25), (20, 21, 29), (9, 40, 41), (40, 9, 41), (4, 3, 5), (15, 8, 17)]
     tris = [t for t in tris if math.degrees(math.atan2(t[0], t[1])) <= 83]
     for i, t1 in enumerate(tris):
@@ -246,7 +277,8 @@ def run(ctx):
         ctx.actions[e["k"]] = ctx.actions.get(e["k"], 0) + 1
     for e in evs[:2] + evs[-1:]:
         ctx.sample({"kind": e["k"], "tag": e["tag"], "args": e["args"]})
-    ctx.rule = ("lines: zones {1,30,31,55,60} x 9 latitudes -79..83 x eastings 100..900 km x lengths 1 m..100 km x bearings round the "
+    ctx.rule = ("lines within half the grid convergence of grid north / south on both sides of the CM (zones 1, 31, 60 x 4 latitudes); "
+                "lines: zones {1,30,31,55,60} x 9 latitudes -79..83 x eastings 100..900 km x lengths 1 m..100 km x bearings round the "
                 "circle x 4 ellipsoids, second point in the same and in the adjacent zone, both hemispheres; every inverse result is fed "
                 "to the direct routine; lines along central meridians between Pythagorean latitudes (exact); distinct = distinct calls; "
                 "the repository tests compute 2 lines")
